@@ -24,10 +24,6 @@ private theorem uniform_iff (e : ℕ) (t : Total) :
     uniform e t = true ↔ t.sum.exp = e ∧ ∀ c ∈ t.categories, CInv e c := by
   unfold uniform CInv; simp
 
-private theorem wf_iff (t : Total) :
-    wellFormed t = true ↔ ∀ c ∈ t.categories, c.rates.all wellFormedRate = true := by
-  unfold wellFormed; simp
-
 /-! ## rate groups -/
 
 /-- `RateTotal.Matches` decides exactly "same rate group" of the specification:
@@ -75,25 +71,14 @@ theorem merge_amounts (e : ℕ) (t1 t2 : Total) (code : String) (k : RateTotal)
   merge_group e _ (absorb_amount e) t1 t2 code k h1 h2
 
 /-- … and the rate surcharge is the sum of the operands' surcharges (absent = 0),
-    for well-formed summaries (an exempt group carries no surcharge; without this
-    the Go code panics — known finding `merge-exempt-group-with-surcharge`) -/
+    whichever operand carries one — also for exempt groups, which match whatever
+    their surcharges (this is what fix 1b8dc7e restored: before it `Merge`
+    dereferenced nil when only the second operand's exempt group had one) -/
 theorem merge_surcharges (e : ℕ) (t1 t2 : Total) (code : String) (k : RateTotal)
-    (h1 : uniform e t1 = true) (h2 : uniform e t2 = true)
-    (w1 : wellFormed t1 = true) (w2 : wellFormed t2 = true) :
+    (h1 : uniform e t1 = true) (h2 : uniform e t2 = true) :
     groupFigure surchargeValue code k (t1.merge t2) =
-      groupFigure surchargeValue code k t1 + groupFigure surchargeValue code k t2 := by
-  obtain ⟨_, c1⟩ := (uniform_iff e t1).mp h1
-  obtain ⟨_, c2⟩ := (uniform_iff e t2).mp h2
-  have d1 : ∀ c ∈ t1.categories, CInvW e c := fun c hc => ⟨c1 c hc, (wf_iff t1).mp w1 c hc⟩
-  have d2 : ∀ c ∈ t2.categories, CInvW e c := fun c hc => ⟨c2 c hc, (wf_iff t2).mp w2 c hc⟩
-  unfold groupFigure Total.merge Total.clone
-  apply categories_figure (CInvW e) _ code (cat_absorb_invW e) _ _ _ d1 d2
-  intro m c hm hc
-  have m3 := ((uniformCategory_iff e m).mp hm.1).2.2
-  have c3 := ((uniformCategory_iff e c).mp hc.1).2.2
-  have hmw := hm.2; have hcw := hc.2
-  rw [List.all_eq_true] at hmw hcw
-  exact rates_surcharge e k m.rates c.rates (fun r hr => ⟨m3 r hr, hmw r hr⟩) (fun r hr => ⟨c3 r hr, hcw r hr⟩)
+      groupFigure surchargeValue code k t1 + groupFigure surchargeValue code k t2 :=
+  merge_group e _ (absorb_surcharge e) t1 t2 code k h1 h2
 
 /-- the amount of every category (by code) is the sum of the operands' -/
 theorem merge_category_amounts (e : ℕ) (t1 t2 : Total) (code : String)
@@ -139,10 +124,10 @@ theorem merge_uniform (e : ℕ) (t1 t2 : Total) (h1 : uniform e t1 = true) (h2 :
 
 /-! ## the executable oracle holds of the model; order independence -/
 
-/-- the Bool oracle the harness evaluates on Go's output holds of the model's merge -/
+/-- the Bool oracle the harness evaluates on Go's output holds of the model's merge,
+    for every pair of summaries at one precision (no condition on their shape) -/
 theorem merge_figures_add (e : ℕ) (t1 t2 : Total)
-    (h1 : uniform e t1 = true) (h2 : uniform e t2 = true)
-    (w1 : wellFormed t1 = true) (w2 : wellFormed t2 = true) :
+    (h1 : uniform e t1 = true) (h2 : uniform e t2 = true) :
     mergeOracle e t1 t2 (t1.merge t2) = true := by
   unfold mergeOracle figuresAdd
   simp only [Bool.and_eq_true, List.all_eq_true, beq_iff_eq]
@@ -152,13 +137,12 @@ theorem merge_figures_add (e : ℕ) (t1 t2 : Total)
     refine ⟨⟨merge_category_amounts e t1 t2 code h1 h2, merge_category_surcharges e t1 t2 code h1 h2⟩, ?_⟩
     intro k _
     exact ⟨⟨merge_bases e t1 t2 code k h1 h2, merge_amounts e t1 t2 code k h1 h2⟩,
-      merge_surcharges e t1 t2 code k h1 h2 w1 w2⟩
+      merge_surcharges e t1 t2 code k h1 h2⟩
 
 /-- Order independence: for every category code and rate group `t1.Merge(t2)` and
     `t2.Merge(t1)` present the same figures, and the same total. -/
 theorem merge_order_independent (e : ℕ) (t1 t2 : Total)
-    (h1 : uniform e t1 = true) (h2 : uniform e t2 = true)
-    (w1 : wellFormed t1 = true) (w2 : wellFormed t2 = true) :
+    (h1 : uniform e t1 = true) (h2 : uniform e t2 = true) :
     sameFigures (t1.merge t2) (t2.merge t1) = true := by
   unfold sameFigures
   simp only [Bool.and_eq_true, List.all_eq_true, beq_iff_eq]
@@ -172,7 +156,7 @@ theorem merge_order_independent (e : ℕ) (t1 t2 : Total)
       refine ⟨⟨?_, ?_⟩, ?_⟩
       · rw [merge_bases e t1 t2 code k h1 h2, merge_bases e t2 t1 code k h2 h1, add_comm]
       · rw [merge_amounts e t1 t2 code k h1 h2, merge_amounts e t2 t1 code k h2 h1, add_comm]
-      · rw [merge_surcharges e t1 t2 code k h1 h2 w1 w2, merge_surcharges e t2 t1 code k h2 h1 w2 w1, add_comm]
+      · rw [merge_surcharges e t1 t2 code k h1 h2, merge_surcharges e t2 t1 code k h2 h1, add_comm]
 
 /-! ## negation -/
 
@@ -251,47 +235,36 @@ theorem merge_negate_zero (t : Total) (h : noDuplicates t = true) :
     exact rate_absorb_negate_zero r
 
 
-/-! ## no panic, no new duplicates -/
+/-! ## matched rows of any shape; no new duplicates -/
 
-/-- For well-formed operands (no exempt group carries a surcharge) `Merge` never
-    reaches the nil dereference, so `Total.merge` *is* the result. -/
-theorem merge_defined (t1 t2 : Total) (w1 : wellFormed t1 = true) (w2 : wellFormed t2 = true) :
-    t1.mergePanics t2 = false := by
-  unfold Total.mergePanics
-  apply mergeCategoriesPanics_false
-  · intro c hc r hr
-    have := (wf_iff t1).mp w1 c hc
-    rw [List.all_eq_true] at this
-    exact this r hr
-  · intro c hc r hr
-    have := (wf_iff t2).mp w2 c hc
-    rw [List.all_eq_true] at this
-    exact this r hr
+/-- The "merge the amounts" step is additive in all three figures for *any* two
+    rows at one precision — in particular when only the absorbed row carries a
+    surcharge (two exempt rows): it is copied, percentage included.  `Total.merge`
+    has no partial step, so it is the result of `Merge` for every pair of
+    summaries (the harness reports any panic of the real code as a violation). -/
+theorem merge_rows_add_in_any_shape (e : ℕ) (m x : RateTotal)
+    (hm : uniformRate e m = true) (hx : uniformRate e x = true) :
+    (m.absorb x).base.value = m.base.value + x.base.value ∧
+    (m.absorb x).amount.value = m.amount.value + x.amount.value ∧
+    surchargeValue (m.absorb x) = surchargeValue m + surchargeValue x ∧
+    (m.surcharge = none → (m.absorb x).surcharge = x.surcharge) :=
+  ⟨absorb_base e m x hm hx, absorb_amount e m x hm hx, absorb_surcharge e m x hm hx, by
+    intro h
+    unfold RateTotal.absorb
+    rcases hxs : x.surcharge with _ | xs <;> simp [h]⟩
 
-/-- negation keeps a summary well-formed, so `t.Merge(t.Negate())` is defined too -/
-theorem merge_negate_defined (t : Total) (w : wellFormed t = true) : t.mergePanics t.negate = false := by
-  apply merge_defined t t.negate w
-  rw [wf_iff] at w ⊢
-  intro c hc
-  unfold Total.negate Total.clone at hc
-  simp only [List.mem_map] at hc
-  obtain ⟨c0, hc0, rfl⟩ := hc
-  have := w c0 hc0
-  rw [List.all_eq_true] at this ⊢
-  intro r hr
-  unfold CategoryTotal.negate at hr
-  simp only [List.mem_map] at hr
-  obtain ⟨r0, hr0, rfl⟩ := hr
-  exact negate_wf r0 (this r0 hr0)
-
-/-- the hypothesis is not vacuous and cannot be dropped: the panic of the Go code
-    (known finding `merge-exempt-group-with-surcharge`) is predicted by the model -/
-theorem merge_panics_on_exempt_surcharge :
+/-- the input of the former known finding `merge-exempt-group-with-surcharge`
+    (exempt group, surcharge 2.50 only in the second operand): both orders now give
+    base 150.00 and surcharge 2.50, the same summary up to row order -/
+theorem merge_exempt_surcharge_either_order :
     let ex : RateTotal := { key := "", country := "", ext := [], base := ⟨10000, 2⟩, percent := none, surcharge := none, amount := ⟨0, 2⟩ }
-    let exS : RateTotal := { ex with surcharge := some ⟨⟨⟨5, 2⟩⟩, ⟨250, 2⟩⟩ }
+    let exS : RateTotal := { ex with base := ⟨5000, 2⟩, surcharge := some ⟨⟨⟨5, 2⟩⟩, ⟨250, 2⟩⟩ }
     let t1 : Total := { categories := [{ code := "VAT", retained := false, rates := [ex], amount := ⟨0, 2⟩, surcharge := none, amountP := ⟨0, 0⟩ }], sum := ⟨0, 2⟩, sumP := ⟨0, 0⟩ }
     let t2 : Total := { categories := [{ code := "VAT", retained := false, rates := [exS], amount := ⟨0, 2⟩, surcharge := none, amountP := ⟨0, 0⟩ }], sum := ⟨0, 2⟩, sumP := ⟨0, 0⟩ }
-    t1.mergePanics t2 = true ∧ t2.mergePanics t1 = false := by
+    wellFormed t2 = false ∧
+    groupFigure (·.base.value) "VAT" ex (t1.merge t2) = 15000 ∧ groupFigure surchargeValue "VAT" ex (t1.merge t2) = 250 ∧
+    groupFigure (·.base.value) "VAT" ex (t2.merge t1) = 15000 ∧ groupFigure surchargeValue "VAT" ex (t2.merge t1) = 250 ∧
+    sameUpToOrder (t1.merge t2) (t2.merge t1) = true ∧ allZero (t2.merge t2.negate) = true := by
   decide +kernel
 
 /-- merging summaries without duplicate categories / rate groups creates none -/
@@ -315,26 +288,26 @@ theorem merge_no_duplicates (t1 t2 : Total) (h1 : noDuplicates t1 = true) (h2 : 
     is evaluated by the harness on the Go outputs of every generated pair. -/
 theorem merge_comm_up_to_order_partial (e : ℕ) (t1 t2 : Total)
     (h1 : uniform e t1 = true) (h2 : uniform e t2 = true)
-    (w1 : wellFormed t1 = true) (w2 : wellFormed t2 = true)
     (d1 : noDuplicates t1 = true) (d2 : noDuplicates t2 = true) :
     sameFigures (t1.merge t2) (t2.merge t1) = true ∧
     noDuplicates (t1.merge t2) = true ∧ noDuplicates (t2.merge t1) = true :=
-  ⟨merge_order_independent e t1 t2 h1 h2 w1 w2, merge_no_duplicates t1 t2 d1 d2, merge_no_duplicates t2 t1 d2 d1⟩
+  ⟨merge_order_independent e t1 t2 h1 h2, merge_no_duplicates t1 t2 d1 d2, merge_no_duplicates t2 t1 d2 d1⟩
 
 /-! ## payments -/
 
 open GoblVerif.Payment in
 /-- The payment total is the sum of the line totals, each line total is
     (debit converted) − (credit converted) at the payment currency's precision;
-    a payment without lines keeps the total it had (known finding
-    `payment-without-lines-keeps-total`). -/
+    with at least one line the total is at that precision too, and a payment
+    without lines gets `num.AmountZero` (the empty sum; fix 99b2945). -/
 theorem payment_total (p : Payment) (res : Result) (h : p.calculate = .ok res) :
     ∃ lts : List Amount,
       List.Forall₂ (fun l lt => l.calculate p.currency p.curExp p.rates = .ok lt) p.lines lts ∧
       res.lineTotals = lts ∧
       (∀ lt ∈ lts, lt.exp = p.curExp) ∧
+      res.total.value = (lts.map (·.value)).sum ∧
       (p.lines ≠ [] → res.total = ⟨(lts.map (·.value)).sum, p.curExp⟩) ∧
-      (p.lines = [] → res.total = p.total) := by
+      (p.lines = [] → res.total = ⟨0, 0⟩) := by
   unfold Payment.calculate at h
   cases hr : runLines p p.lines ⟨[], none, none⟩ with
   | error e => rw [hr] at h; simp at h
@@ -345,8 +318,9 @@ theorem payment_total (p : Payment) (res : Result) (h : p.calculate = .ok res) :
     obtain ⟨lts, hf, g1, g2, _⟩ := runLines_ok p p.lines _ st hr
     simp only [List.nil_append] at g1
     have hexp : ∀ lt ∈ lts, lt.exp = p.curExp := forall2_exp _ _ _ _ _ hf
-    refine ⟨lts, hf, g1, hexp, ?_, ?_⟩
-    · intro hne
+    have hne : p.lines ≠ [] → ({ lineTotals := st.lineTotals, tax := st.tt, total := st.total.getD amountZero } : Result).total
+        = ⟨(lts.map (·.value)).sum, p.curExp⟩ := by
+      intro hne
       simp only
       rw [g2]
       cases lts with
@@ -359,14 +333,48 @@ theorem payment_total (p : Payment) (res : Result) (h : p.calculate = .ok res) :
         have : accTotal none lt = some lt := rfl
         rw [this, foldl_accTotal p.curExp more lt (hexp lt (by simp)) (fun x hx => hexp x (by simp [hx]))]
         simp
-    · intro he
+    have he : p.lines = [] → lts = [] := by
+      intro he
       have := List.Forall₂.length_eq hf
       rw [he] at this
       simp only [List.length_nil] at this
-      have hl : lts = [] := List.length_eq_zero_iff.mp this.symm
-      subst hl
+      exact List.length_eq_zero_iff.mp this.symm
+    refine ⟨lts, hf, g1, hexp, ?_, hne, ?_⟩
+    · by_cases hl : p.lines = []
+      · have := he hl
+        subst this
+        simp only [List.foldl_nil] at g2
+        simp [g2, amountZero]
+      · rw [hne hl]
+    · intro hl
+      have := he hl
+      subst this
       simp only [List.foldl_nil] at g2
-      simp [g2]
+      simp [g2, amountZero]
+
+open GoblVerif.Payment in
+/-- The total a payment carried before the calculation plays no role in its
+    result (before fix 99b2945 a payment without lines kept it). -/
+theorem payment_ignores_previous_total (p : Payment) (a : Amount) :
+    ({ p with total := a } : Payment).calculate = p.calculate := by
+  unfold Payment.calculate
+  rw [runLines_total_irrelevant]
+
+open GoblVerif.Payment in
+/-- `Payment.calculate` is defined exactly when every line can be converted (an
+    exchange rate exists) and every line document's currency is defined: merging
+    the documents' summaries cannot fail, whatever their shape. -/
+theorem payment_defined (p : Payment) :
+    (∃ res, p.calculate = .ok res) ↔
+      ∀ l ∈ p.lines, (∃ lt, l.calculate p.currency p.curExp p.rates = .ok lt) ∧
+        ∀ dr, l.document = some dr → dr.docValid = true := by
+  have hd := runLines_defined p p.lines ⟨[], none, none⟩
+  unfold lineOK at hd
+  rw [← hd]
+  unfold Payment.calculate
+  cases hr : runLines p p.lines ⟨[], none, none⟩ with
+  | error e => simp
+  | ok st => simp
 
 open GoblVerif.Payment in
 /-- each line total is debit minus credit, converted (`currency.Convert`) and
@@ -412,7 +420,7 @@ private def r10s : RateTotal := { key := "reduced", country := "", ext := [], ba
 private def tA : Total := { categories := [{ code := "VAT", retained := false, rates := [r20, r10s], amount := ⟨2300, 2⟩, surcharge := some ⟨156, 2⟩, amountP := ⟨0, 0⟩ }], sum := ⟨2456, 2⟩, sumP := ⟨0, 0⟩ }
 private def tB : Total := { categories := [{ code := "VAT", retained := false, rates := [r20'], amount := ⟨1000, 2⟩, surcharge := none, amountP := ⟨0, 0⟩ }], sum := ⟨1000, 2⟩, sumP := ⟨0, 0⟩ }
 
-example : uniform 2 tA = true ∧ uniform 2 tB = true ∧ wellFormed tA = true ∧ wellFormed tB = true ∧
+example : uniform 2 tA = true ∧ uniform 2 tB = true ∧
     noDuplicates tA = true ∧ noDuplicates tB = true := by decide +kernel
 example : groupFigure (·.base.value) "VAT" r20 (tA.merge tB) = 15000 ∧
     categoryFigure catSurchargeValue "VAT" (tB.merge tA) = 156 ∧
